@@ -116,6 +116,8 @@ fn insert_trivia(text: &str, rng: &mut Rng, density: u64) -> String {
         let mut last = 0;
         let mut define_name_seen = 0;   // pieces seen on a #define line: '#', 'define', name
         if !is_directive && rng.chance(1, density) { out += *rng.pick(&["\n", "// lead\n", "/* lead */ ", "  "]); }
+        // a directive may be preceded by blanks, a comment or a splice on its own line
+        if is_directive && rng.chance(1, density) { out += *rng.pick(&["  ", "\t", "/* lead */ ", "/* a */ /* b */", "\\\n", " \\\n  "]); }
         for (k, (s, e)) in ps.iter().enumerate() {
             out += &body[last..*s];
             let piece = &body[*s..*e];
